@@ -100,6 +100,14 @@ def generate(tier):
                         cases.append(("precursor", variant, c1, c2, n, True))
                     if c1 <= c2:
                         cases.append(("transpose", variant, c1, c2, n, True))
+        if tier == "thorough" and len(VARIANT_CLASSES[variant]) > 2:
+            # third excitation class at low order
+            c3 = VARIANT_CLASSES[variant][2]
+            for c in VARIANT_CLASSES[variant][:3]:
+                for n in (0, 1):
+                    cases.append(("isr", variant, c3, c, n, True))
+                    if c != c3:
+                        cases.append(("isr", variant, c, c3, n, True))
         cases.append(("bookkeeping", variant))
     cases.sort(key=lambda c: (len(c) > 2 and c[4], c[0]))
     return cases
@@ -128,13 +136,13 @@ def _objects(variant):
 _isr_cache = {}
 
 
-def _explicit(variant, no, nv, maxorder):
-    key = (variant, no, nv, maxorder)
+def _explicit(variant, no, nv, maxorder, n_classes=2):
+    key = (variant, no, nv, maxorder, n_classes)
     e = _isr_cache.get(key)
     if e is None:
         fs = fock.FockSpace(no, nv)
         model = Model(Space(no, nv, False))
-        e = ISR(fs, model, variant, maxorder)
+        e = ISR(fs, model, variant, maxorder, n_classes=n_classes)
         _isr_cache[key] = e
     return e
 
@@ -282,7 +290,9 @@ def _decide(kind, variant, c1, c2, n1, n2, order, subtract_gs, lib, lib2,
         t2r = Table(target, {tuple(k[i] for i in pos): v
                              for k, v in t2.data.items()})
         return tables_equal(t1, t2r), bool(t1.data)
-    E = _explicit(variant, no, nv, max(order, 1))
+    third = VARIANT_CLASSES[variant][2:3]
+    ncls = 3 if (third and (c1 in third or c2 in third)) else 2
+    E = _explicit(variant, no, nv, max(order, 1), ncls)
     model = E.model
     if kind in ("isr", "precursor"):
         target = gen.syms(tuple(n1 + n2))
